@@ -28,12 +28,22 @@ import (
 
 func TestMain(m *testing.M) { ev.Main(m, "C21") }
 
-// Known-finding keys (strict unless listed as open in $VERIF_KNOWN and still reproducing).
+// knownMin18 is the one open known finding of this property: the connection-setup
+// ApiVersions request ignores kgo.MinVersions for key 18. The check stays strict unless the
+// finding is listed as open in $VERIF_KNOWN under this key AND still reproduces on the
+// witness; only then are user MinVersions entries for key 18 excluded by construction.
+//
+// knownMissingKey / knownMax18 only label violation messages: both defects were repaired in
+// /repo ("fix:" commits 81ee17b, 9be22f8; reverse patches in /verif/seeded/orig-C21-*), are
+// not excluded and are asserted strictly.
 const (
 	knownMissingKey = "broker-table-without-produce-key-unlisted-request-key-is-written"
 	knownMin18      = "apiversions-handshake-ignores-user-minversions"
 	knownMax18      = "apiversions-handshake-exceeds-client-max-when-user-maxversions-is-higher"
 )
+
+// min18Active is decided once per process by decideKnown (listed && witness reproduces).
+var min18Active bool
 
 // ---- known findings plumbing ----
 
@@ -190,10 +200,6 @@ func genPlan(t *rapid.T) *plan {
 		} else if _, ok := p.UMax[18]; !ok {
 			p.UMax[18] = int16(rapid.IntRange(0, 4).Draw(t, "umax18"))
 		}
-		if v, ok := p.UMax[18]; ok && v > clientMax(18) && knownListed(knownMax18) {
-			p.UMax[18] = clientMax(18)
-			ev.Excluded(knownMax18)
-		}
 	}
 	if rapid.IntRange(0, 1).Draw(t, "min_mode") == 1 {
 		p.UMin = map[int16]int16{}
@@ -204,7 +210,7 @@ func genPlan(t *rapid.T) *plan {
 			}
 			p.UMin[k] = int16(rapid.IntRange(0, cm+1).Draw(t, "umin"))
 		}
-		if knownListed(knownMin18) {
+		if min18Active {
 			if _, ok := p.UMin[18]; ok {
 				delete(p.UMin, 18)
 				ev.Excluded(knownMin18)
@@ -481,15 +487,6 @@ func userVersions(m map[int16]int16) *kversion.Versions {
 
 func runCase(t *rapid.T, tt *testing.T, p *plan) {
 	m := newModel(p)
-	if knownListed(knownMissingKey) {
-		// excluded input class: a loaded table that does not list Produce (key 0)
-		if _, ok := p.Table[0]; !ok && m.loaded {
-			ev.Excluded(knownMissingKey)
-			p.Table[0] = rng{0, clientMax(0)}
-			p.Order = append(p.Order, 0)
-			m = newModel(p)
-		}
-	}
 	var errs []string
 	var samples []map[string]any
 	sampled := map[string]bool{}
@@ -643,7 +640,77 @@ func runCase(t *rapid.T, tt *testing.T, p *plan) {
 	}
 }
 
+// witnessMin18 runs the recorded witness (MaxVersions{18:0} + MinVersions{18:1}, one direct
+// Metadata request) and reports the versions of the ApiVersions frames the client wrote.
+func witnessMin18(tt *testing.T) (written []int16, callErr error) {
+	sb.Run(tt, func(e *sb.Env) {
+		s := &sb.Script{Table: map[int16][2]int16{}, Understands: 4, NodeID: 1, Host: "localhost", Port: 9092}
+		for _, k := range allKeys {
+			s.Table[k] = [2]int16{0, clientMax(k)}
+			s.Order = append(s.Order, k)
+		}
+		br := e.Listen(9092, s.Handle)
+		cl, err := e.Client(kgo.SeedBrokers("localhost:9092"), kgo.DisableClientMetrics(),
+			kgo.MaxVersions(userVersions(map[int16]int16{18: 0, 3: clientMax(3)})),
+			kgo.MinVersions(userVersions(map[int16]int16{18: 1})))
+		if err != nil {
+			panic(fmt.Sprintf("VERIF-INFRA: NewClient: %v", err))
+		}
+		ctx, cancel := context.WithTimeout(context.Background(), time.Minute)
+		defer cancel()
+		_, callErr = cl.SeedBrokers()[0].Request(ctx, kmsg.NewPtrMetadataRequest())
+		for _, f := range br.Frames() {
+			if f.Key == 18 {
+				written = append(written, f.Version)
+			}
+		}
+	})
+	return written, callErr
+}
+
+var decideOnce sync.Once
+
+// decideKnown activates the exclusion iff the finding is listed open and the witness still
+// shows it; it announces the finding once.
+func decideKnown(tt *testing.T) {
+	decideOnce.Do(func() {
+		if !knownListed(knownMin18) {
+			return
+		}
+		written, err := witnessMin18(tt)
+		if len(written) > 0 {
+			min18Active = true
+			ev.KnownFinding("C21", fmt.Sprintf("%s: witness MaxVersions{18:0}+MinVersions{18:1}: the handshake wrote ApiVersions %v although no version is >= the user's minimum 1 (call err=%v)", knownMin18, written, err))
+			ev.Class("known_finding_witness_still_fails")
+		} else {
+			ev.Class("known_finding_listed_but_witness_passes_check_is_strict")
+		}
+	})
+}
+
+// TestKnownFindingWitness keeps the witness in the evidence whichever way it goes: when the
+// finding is not (or no longer) listed, the witness is asserted like any other case.
+func TestKnownFindingWitness(t *testing.T) {
+	decideKnown(t)
+	if min18Active {
+		return
+	}
+	written, err := witnessMin18(t)
+	if len(written) > 0 {
+		msg := fmt.Sprintf("[%s] witness MaxVersions{18:0}+MinVersions{18:1}: ApiVersions %v written although no version satisfies the user's minimum (call err=%v)", knownMin18, written, err)
+		ev.Replay("c21-witness.txt", msg)
+		t.Fatalf("%s", msg)
+	}
+	if err == nil {
+		msg := "witness MaxVersions{18:0}+MinVersions{18:1}: nothing written but the call returned no error"
+		ev.Replay("c21-witness.txt", msg)
+		t.Fatalf("%s", msg)
+	}
+	ev.Class("witness_handshake_respects_user_min")
+}
+
 func TestNegotiation(t *testing.T) {
+	decideKnown(t)
 	rapid.Check(t, func(rt *rapid.T) {
 		p := genPlan(rt)
 		runCase(rt, t, p)
